@@ -396,13 +396,18 @@ pub fn draw_literal(t: &mut Tape, p: &Profile) -> MTerm {
     if t.chance(1, 48) {
         // a long run without any escape, around typical buffer sizes (a token that does not fit
         // an internal buffer takes another path in buffered writers)
-        let n = [4095usize, 4096, 4097, 8192, 8193, 65_537][t.below(6)];
-        let unit = ["a", "\u{e9}", "ab ", "0"][t.below(4)];
-        let mut run = String::with_capacity(n + 4);
+        let n = [1023usize, 1024, 1025, 4095, 4096, 4097, 8192, 8193, 65_537][t.below(9)];
+        // plain units, and units that need escaping in most syntaxes: with the (random) length
+        // of what precedes, an escape falls on every residue of any internal chunk size
+        let unit = ["a", "\u{e9}", "ab ", "0", "\"", "\\", "\n", "a\r", "<&", "\u{1F600}\t"][t.below(10)];
+        let mut run = String::with_capacity(n + 8);
         while run.len() < n {
             run.push_str(unit);
         }
         lex.push_str(&run);
+        if t.flag() {
+            lex.push_str(LEX_POOL[t.below(LEX_POOL.len())]);
+        }
     }
     if t.chance(1, 4) {
         // a few scalar values drawn by class, spliced at either end
@@ -622,6 +627,17 @@ pub fn add_shape(t: &mut Tape, a: &Alphabet, p: &Profile, out: &mut Vec<MQuad>) 
                 out.push(([bn(i), rdf("first"), a.object(t, &Profile::strict(), 2)], g.clone()));
                 let rest = if i + 1 < n { bn(i + 1) } else { rdf("nil") };
                 out.push(([bn(i), rdf("rest"), rest], g.clone()));
+                // a list node may carry more than rdf:first / rdf:rest: its type, another type,
+                // another property (each makes folding it into a collection lossy or not)
+                if t.chance(1, 6) {
+                    out.push(([bn(i), rdf("type"), rdf("List")], g.clone()));
+                }
+                if t.chance(1, 8) {
+                    out.push(([bn(i), rdf("type"), a.iri(t)], g.clone()));
+                }
+                if t.chance(1, 10) {
+                    out.push(([bn(i), a.iri(t), a.literal(t)], g.clone()));
+                }
             }
             "list"
         }
